@@ -27,7 +27,7 @@ def params_for(rng, quick):
                 pnlen={"c": rng.choice([1, 2, 3, 4]), "s": rng.choice([1, 2, 3, 4])}, pn_gaps=rng.choice([None, "small", "big"]),
                 varint_w=rng.choice([None, None, 2, 4, 8]), cid_switch=rng.random() < 0.4, ipv=rng.choice([4, 6]),
                 ch_pad=rng.choice([0, 60, 300]), tp_grease=rng.random() < 0.2,
-                l2=rng.choice([{}, {}, {}, {"ip6_ext": 1}, {"ip4_opts": 1}, {"eth_pad": 1}]),
+                l2=rng.choice([{}, {}, {}, {"ip6_ext": 1}, {"ip4_opts": 1}, {"eth_pad": 1}, {"eth_fcs": 1}]),
                 init_token=rng.choice([0, 0, 5, 37]), len_width=rng.choice([None, 2, 4, 8]))
 
 
@@ -40,7 +40,7 @@ def _one(job):
         return dict(machinery=traceback.format_exc()[-1500:], job=[b, seed, params])
     pred = [(e["d"], b"".join(payload[i] for i in e["ids"])) for e in b["out"]]
     truth = [(g.d, g.stream) for g in c.dgrams if g.stream]
-    why, ok, deviation = "", True, False
+    why, ok, deviation, as_predicted = "", True, False, False
     if res.crashed:
         ok, why = False, "run aborted: " + res.exc.strip().splitlines()[-1]
     else:
@@ -56,6 +56,7 @@ def _one(job):
                 deviation = True        # documented deviation (Quic.tla NoiseDatagram, phase "flip"): model and code agree that the direction goes dark
             elif g2 == pred and pred != truth:
                 # the implementation-shaped model predicts a deviation from the contract here (named deviation taken)
+                as_predicted = True
                 ok, why = False, ("0-RTT stream data is not exported: the early keys were derived from the first offered suite before the "
                                   "ServerHello was seen" if b["kf"] else "model and code agree on an export that differs from the data sent")
             elif g2 != truth:
@@ -74,7 +75,7 @@ def _one(job):
                 if ts_in != ts_out and "-a" not in opts:
                     ok, why = False, "exported datagrams do not carry the capture times of their input datagrams"
     ev = [e for e in res.events if e["ev"] in ("qpn", "qepoch", "qcrypto", "qdec")]
-    return dict(ok=ok, why=why, b=b, seed=seed, params=params, opts=opts, events=ev, pred_is_truth=(pred == truth), deviation=deviation,
+    return dict(ok=ok, why=why, b=b, seed=seed, params=params, opts=opts, events=ev, pred_is_truth=(pred == truth), deviation=deviation, as_predicted=as_predicted,
                 pkts=[[dict(d=g.d, **m) for m in g.packets] for g in c.dgrams], nstream=len(pred))
 
 
@@ -145,9 +146,8 @@ def run(chk):
         if res["deviation"]:
             chk.extra["documented_deviation_runs_matching_the_model"] = chk.extra.get("documented_deviation_runs_matching_the_model", 0) + 1
         if not res["ok"]:
-            kf = "KF_EarlySuiteGuess" if b["kf"] else None
-            if b["kf"] and not b["zrtt"]:
-                kf = None
+            # attributed to the known finding only when the export is EXACTLY what the model predicts for the named deviation
+            kf = "KF_EarlySuiteGuess" if b["kf"] and b["zrtt"] and res["as_predicted"] else None
             chk.violation(f"suite {b['suite']} first={b['first']} split={b['split']} retry={b['retry']} 0rtt={b['zrtt']}: {res['why']}",
                           dict(behaviour=b, seed=res["seed"], params=res["params"], opts=res["opts"], why=res["why"]), kf_key=kf)
         elif res["events"] and not res["deviation"] and not any(f["ft"] == "noise" and f["a"] == "flip" for dg in b["hist"] for p in dg["pkts"] for f in p["frames"]):       # (a documented deviation breaks the qepoch clause of the contract by definition)
